@@ -32,6 +32,10 @@ pub enum Via {
     /// start-up with two blank lines before every note's text, then every note set to its own text through
     /// didChange: only the position of every block changes
     Shifted,
+    /// start-up with every run of blank lines of every note doubled, then every note set to its own text through
+    /// didChange: for a text that is already in iwe's normal form this is what an editor sends after it applied the
+    /// formatting edit — the new text is exactly what the graph renders, but every block sits on another line
+    Echo,
 }
 
 thread_local! {
@@ -44,12 +48,14 @@ pub fn via_from(v: &serde_json::Value) -> Via {
         "Incremental" => Via::Incremental,
         "Stale" | "Rotated" => Via::Stale,
         "Shifted" => Via::Shifted,
+        "Echo" => Via::Echo,
         _ => Via::Import,
     }
 }
 
 pub fn via_for(i: u64) -> Via {
-    match i % 5 {
+    match i % 6 {
+        5 => Via::Echo,
         0 => Via::Import,
         1 => Via::Touch,
         2 => Via::Incremental,
@@ -102,6 +108,7 @@ pub fn database_with(state: &HashMap<String, String>, ext: &str, sequential: boo
         Via::Incremental => HashMap::new(),
         Via::Stale => stale_state(state),
         Via::Shifted => state.iter().map(|(k, t)| (k.clone(), format!("\n\n{}", t))).collect(),
+        Via::Echo => state.iter().map(|(k, t)| (k.clone(), t.replace("\n\n", "\n\n\n"))).collect(),
         _ => state.clone(),
     };
     let mut db = liwe::database::Database::new(initial, sequential, MarkdownOptions { refs_extension: ext.to_string() });
@@ -124,6 +131,7 @@ pub fn server_with(state: &HashMap<String, String>, ext: &str, sequential: bool)
         Via::Incremental => HashMap::new(),
         Via::Stale => stale_state(state),
         Via::Shifted => state.iter().map(|(k, t)| (k.clone(), format!("\n\n{}", t))).collect(),
+        Via::Echo => state.iter().map(|(k, t)| (k.clone(), t.replace("\n\n", "\n\n\n"))).collect(),
         _ => state.clone(),
     };
     let mut server = Server::new(ServerConfig { base_path: "/lib".to_string(), state: initial, sequential_ids: Some(sequential), configuration, lsp_client: LspClient::Unknown });
